@@ -16,7 +16,11 @@
 //   - every payload the child serves must be the exact bytes of an existing piece,
 //   - the store tree must not change, completed pieces keep their bytes, the
 //     in-progress torrent keeps its length and finally completes byte-exact
-//     from an honest seeder; goroutines and fds return to baseline.
+//     from an honest seeder; goroutines and fds return to baseline after every
+//     session,
+//   - hostile handshakes must not use up connection slots: after a flood of 12
+//     hostile handshakes of one class per torrent an honest newcomer must still
+//     be admitted (answered) on both torrents.
 package c14
 
 import (
@@ -41,11 +45,6 @@ import (
 )
 
 const namespace = "c14/ns"
-
-// step is one generated piece of the byte stream of a session.
-type step struct {
-	Bytes []byte
-}
 
 // session is one connection's worth of hostile input.
 type session struct {
@@ -114,7 +113,6 @@ type world struct {
 	dir     string
 	geoms   []*geom
 	have    []int // pieces of geoms[1] present at start (agent)
-	served  [][]int
 
 	ch      *child
 	gen     int
@@ -133,7 +131,6 @@ type world struct {
 	crashedClass map[string]int
 	hugeSeen     map[string]bool // classes whose >=512 MiB declaration already produced an alloc violation here
 	allocBound   uint64
-	failed       bool
 }
 
 var t0 = time.Now()
@@ -1259,7 +1256,7 @@ func TestC14(t *testing.T) {
 		"PRNG-generated hostile sessions against a real agent scheduler and a real origin scheduler in child processes, each with the bandwidth limiter disabled and enabled: "+
 			"(a) a hostile first frame (handshake with wrong/oversized/undersized bitfields, bitfield length headers up to 2^64-1, remote bitfields, bad ids, wrong type, raw/mutated bytes), "+
 			"(b) valid handshake + one hostile frame of every message type (nil sub-message, index in {-2^31,-1,n,n+1,2^31-1}, offset/length in {-1,0,pl+-1,2^31-1}, payload shorter/longer/corrupt, oversized prefixes, random and mutated bytes), "+
-			"(c) valid handshake + stream of 2-5 hostile frames. Each frame is classified by decoding it as the receiver does. "+
+			"(c) valid handshake + stream of 2-5 hostile frames, (d) per hostile handshake class a flood of 12 handshakes per torrent followed by honest admission probes. Each frame is classified by decoding it as the receiver does. "+
 			"A case is one session; non-trivial when it contains >=1 hostile frame that was delivered to a live child; distinct = distinct (world, kind, target, stream bytes).")
 	defer run.Finish()
 	run.Assume("the child process is the real kraken scheduler/conn/dispatch/storage code built from /repo; only the metainfo client and the tracker announce client are stand-ins")
